@@ -180,7 +180,13 @@ def runSh (ws : List String) : String :=
   -- `st=N`: the flow inside `$( )` ends with a command of exit status N, which becomes `$?`
   let stTxt := match kv ws "st" with
     | some n => s!" st={n}"
-    | none => if kvNat ws "neg" != 0 then " st=1" else ""   -- `! pipeline`: success becomes 1
+    | none =>
+      -- `! pipeline`: success becomes 1 (neg=1), failure becomes 0 (neg=2: `! { flow; st 5; }`); neg=3: `set -n`,
+      -- nothing is executed, status 0
+      match kvNat ws "neg" with
+      | 0 => ""
+      | 1 => " st=1"
+      | _ => " st=0"
   let seed := kvNat ws "seed"
   let emitted := if emitsNewline src then p ++ [10] else p
   -- the decoder of `expand_common`: general `from_utf8_lossy` (Lossy.lean) for the payloads with arbitrary
@@ -192,6 +198,9 @@ def runSh (ws : List String) : String :=
   let spec :=
     let x := flowSpec shape emitted
     if isVar then specSubst 10 (dec (specTransfer x)) else x
+  let noexec := kvNat ws "neg" == 3
+  let model := if noexec then some [] else model
+  let spec := if noexec then [] else spec
   (match model with
     | some x => showFlow x ++ stTxt
     | none => "stuck") ++ "\t=" ++ showFlow spec ++ stTxt
@@ -512,6 +521,41 @@ def runTw (ws : List String) : String :=
   let obs := s!"len={n + m} A=ok a=ok atomic=ok"
   obs ++ "\t=" ++ obs
 
+/-! ### a blocking `write` that is resumed (`bwr` cases): `poll_write_full` keeps `bytes_written` across polls -/
+
+def runBwr (ws : List String) : String :=
+  let n := kvNat ws "n"
+  let pre := min (kvNat ws "pre") cfg.pipeSize
+  let k := kvNat ws "k"
+  let act := (kv ws "act").getD "close"
+  let wr : Ofd := { readable := false, writable := true, nonblocking := false }
+  let rd : Ofd := { readable := true, writable := false, nonblocking := false }
+  let p0 : Fifo Byte := { content := [], readers := 1, writers := 1 }
+  let p0' := (wr.sysWrite cfg p0 (opData 0 pre)).2
+  let data := opData 1 n
+  let (r1, p1) := wr.sysWrite cfg p0' data
+  let showRes (r : Res) : String := match r with
+    | .ok m => s!"ok {m}"
+    | .pending => "pend"
+    | .err e => showErr e
+  (match r1 with
+    | .pending =>
+      -- the future holds `bytes_written`; the second poll continues the loop of `poll_write_full` from there
+      let bw := p1.content.length - p0'.content.length
+      if act == "close" then
+        let p2 := p1.closeFd true false
+        let (r2, _) := wr.pollWriteFull cfg (n + 1) p2 (data.drop bw) bw
+        s!"p1=pend p2={showRes r2} left=closed"
+      else
+        let (rr, _, p2) := rd.sysRead p1 k
+        let rdTxt := match rr with
+          | .ok m => toString m
+          | .pending => "pend"
+          | .err e => showErr e
+        let (r2, p3) := wr.pollWriteFull cfg (n + 1) p2 (data.drop bw) bw
+        s!"p1=pend rd={rdTxt} p2={showRes r2} left={p3.content.length}:{hashBytes p3.content}"
+    | _ => s!"p1={showRes r1} p2=- left={p1.content.length}:{hashBytes p1.content}") ++ "\t-"
+
 def runLine (line0 : String) : String :=
   -- a two-writer case that hit the known deadlock carries a marker for check.py; it is not part of the case
   let line := (line0.splitOn "; !kf-").headD line0
@@ -524,6 +568,7 @@ def runLine (line0 : String) : String :=
   | "rd" :: ws => runRd ws
   | "rp" :: ws => runRp ws
   | "tw" :: ws => runTw ws
+  | "bwr" :: ws => runBwr ws
   | _ => runOps line
 
 def main : IO Unit := mainLoop runLine
